@@ -202,6 +202,15 @@ fn run(kvariant: &[Op], init_flags: u8, prefix: &[usize], http_every_step: bool,
         if channel_latched {
             let _ = shared.get_key_keeper_shared_state().update_current_secure_channel_state("wireserver".to_string()).await;
         }
+        // the modules' status messages are as long as they get (a verifier log, a chain of errors; the store keeps 1 KiB of
+        // each): the error text still names every subsystem that is not ready
+        {
+            use gpa_harness::shared_state::agent_status_wrapper::AgentStatusModule;
+            let st = shared.get_agent_status_shared_state();
+            let long = |tag: &str| format!("{tag}: {}", "failed to load program: verifier rejected instruction 17 of section kprobe; ".repeat(16));
+            let _ = st.set_module_status_message(long("redirector"), AgentStatusModule::Redirector).await;
+            let _ = st.set_module_status_message(long("key keeper"), AgentStatusModule::KeyKeeper).await;
+        }
         // non-initial start states
         if init_flags != 0 {
             let _ = prov.update_one_state(ProvisionFlags::from_bits_truncate(init_flags)).await;
@@ -500,7 +509,7 @@ fn main() {
         res.cov("exhaustive", !capped);
         res.cov("preemption_bound", bound as u64);
         res.cov("workers", n as u64);
-        res.cov("rule", format!("threads R=[redirector_ready], L=[listener_started], K in 6 op sequences over key_latched / key_latch_ready_state_reset / provision_timeup, from the empty readiness set and (K variants [reset, latched] and [latched, reset]) from {} non-initial readiness sets, and 4 K variants with the secure channel already latched (initial_flags bit 7), 3 with a stale status.tag.tmp of an earlier run in the directory (bit 6), 2 (4) with a fourth thread Q that makes a status query concurrently with the updaters (bit 5: the error text of a query must be the complement of a readiness set in force at one of its own steps); every schedule with <= {bound} preemptions, one actor message per step; after every step: provision flags, finished tick and error text via the public getters; for schedules with <= 1 preemption also six real /provision HTTP queries (tick absent, 0, negative, far future, boundary before the step, first boundary, and the stamp itself -1 / +1 / +999 / +999999 ns); on a second listener whose key keeper handle has no actor (channel state unreadable) a far-future tick is never answered finished; after the default schedule of each configuration the real waiting client (ProvisionQuery, 4 polls) created after the last event; inotify on the tag directory", if thorough { 7 } else { 3 }));
+        res.cov("rule", format!("threads R=[redirector_ready], L=[listener_started], K in 6 op sequences over key_latched / key_latch_ready_state_reset / provision_timeup, from the empty readiness set and (K variants [reset, latched] and [latched, reset]) from {} non-initial readiness sets, and 4 K variants with the secure channel already latched (initial_flags bit 7), 3 with a stale status.tag.tmp of an earlier run in the directory (bit 6), 2 (4) with a fourth thread Q that makes a status query concurrently with the updaters (bit 5: the error text of a query must be the complement of a readiness set in force at one of its own steps); every schedule with <= {bound} preemptions, one actor message per step; after every step: provision flags, finished tick and error text via the public getters; for schedules with <= 1 preemption also six real /provision HTTP queries (tick absent, 0, negative, far future, boundary before the step, first boundary, and the stamp itself -1 / +1 / +999 / +999999 ns); on a second listener whose key keeper handle has no actor (channel state unreadable) a far-future tick is never answered finished; after the default schedule of each configuration the real waiting client (ProvisionQuery, 4 polls) created after the last event; inotify on the tag directory; the status messages of redirector and key keeper are about 1 KiB long in every execution", if thorough { 7 } else { 3 }));
         std::process::exit(res.finish());
     }
     let (wi, wn) = me.unwrap();
